@@ -4,6 +4,7 @@
    object untouched. *)
 From Coq Require Import NArith ZArith QArith Qcanon List Lia Bool.
 From Verif Require Import Num Units UnitsFacts Grid GridFacts System SystemFacts ReactionText UnitText Schemas Dict DictFacts Coarse.
+From Verif Require Import Enums EnumFacts.
 
 (* dictionary readers: an unknown key, or a field given under two of its synonyms, is rejected - any schema, any dictionary *)
 Theorem C20_unknown_key : forall (A : Type) sc (d : dict A) k v, In (k, v) d -> known sc k = false -> read_fields A sc d = Err.
@@ -39,6 +40,13 @@ Theorem C20_no_aliasing : forall sys st r p a st' r' p' i j,
   get_state sys st' r' p' = get_state sys st r' p'.
 Proof. exact get_set_other. Qed.
 Print Assumptions C20_no_aliasing.
+
+(* string enumerations (Model/Enums.v, re-read from /repo's Python and C++ source on every run by harness/translate_enums.py) *)
+(* what the validators accept is what the documentation lists, no more and no less: sampling policies, processing modes, axes,
+   boundary conditions, look-up policies *)
+Theorem C20_validators_agree : validators_ok = true.
+Proof. exact validators_agree. Qed.
+Print Assumptions C20_validators_agree.
 
 (* the classes decided by finite tables or by the rule itself (computation): unsupported symbols, text outside the unit grammar,
    the rules of coarse-graining maps *)
